@@ -63,10 +63,14 @@ const (
 	mStaleKindName                     // kind-service-names: rows no registered instance backs any more are not rebuilt
 	mWildcardUnbacked                  // gateway-services / mesh-topology: which names a wildcard gateway maps depends on the write order
 	mStaleDestName                     // kind-service-names: a "destination" row stays when service-defaults is rewritten without a Destination
-	mAll           = mUsage | mCheckRefresh | mGatewayStamp | mTopologyStamp | mOrphanSecret | mStaleKindName | mWildcardUnbacked | mStaleDestName
+	mStaleHash                         // config entries: the stored Hash predates a status write; the restore recomputes it
+	mUnheldUUID                        // peering-secret-uuids: an id no secrets row holds any more is not rebuilt
+	mNodeSpelling                      // services: the row keeps the node name as spelled by its own registration; the restore uses the node row's
+	mNameSpelling                      // kind-service-names / usage: letter-case variants of one service name collapse by write order
+	mAll           = mUsage | mCheckRefresh | mGatewayStamp | mTopologyStamp | mOrphanSecret | mStaleKindName | mWildcardUnbacked | mStaleDestName | mStaleHash | mUnheldUUID | mNodeSpelling | mNameSpelling
 )
 
-var maskList = []maskSet{mUsage, mCheckRefresh, mTopologyStamp, mGatewayStamp, mOrphanSecret, mStaleKindName, mStaleDestName, mWildcardUnbacked}
+var maskList = []maskSet{mUsage, mCheckRefresh, mTopologyStamp, mGatewayStamp, mOrphanSecret, mUnheldUUID, mStaleKindName, mStaleDestName, mWildcardUnbacked, mStaleHash, mNodeSpelling, mNameSpelling}
 
 var maskKind = map[maskSet]string{
 	mUsage:         "usage-row-index-after-restore",
@@ -77,12 +81,21 @@ var maskKind = map[maskSet]string{
 	mStaleKindName: "stale-kind-service-name-dropped-by-restore",
 	mWildcardUnbacked: "wildcard-gateway-mappings-depend-on-write-order",
 	mStaleDestName:    "stale-destination-kind-name-dropped-by-restore",
+	mStaleHash:        "config-entry-hash-recomputed-by-restore",
+	mUnheldUUID:       "unheld-peering-secret-uuid-dropped-by-restore",
+	mNodeSpelling:     "service-row-node-name-respelled-by-restore",
+	mNameSpelling:     "service-name-letter-case-variants-collapsed-by-write-order",
 }
 
 type canonCtx struct {
 	masks   maskSet            // the deviations whose witness predicate holds for the cut being compared
 	refresh bool               // re-copy ServiceName/ServiceTags of checks from the store's services (mCheckRefresh)
 	svcs    map[svcKey]svcInfo // services of the store the value came from
+	// the rows the witness names (nil: none)
+	staleHash map[string]bool   // "kind\x00name" of config entries whose stored hash is stale (mStaleHash)
+	respelled map[string]bool   // "node\x00peer" (lower case) of nodes with a service row spelled otherwise (mNodeSpelling)
+	nodes     map[string]string // "node\x00peer" (lower case) -> the node row's spelling, in the store the value came from
+	variants  map[string]bool   // lower-cased service names written in several letter-case spellings (mNameSpelling)
 }
 
 var (
@@ -90,6 +103,9 @@ var (
 	protoMsgType = reflect.TypeOf((*proto.Message)(nil)).Elem()
 	hcType       = reflect.TypeOf(structs.HealthCheck{})
 	gsType       = reflect.TypeOf(structs.GatewayService{})
+	snType       = reflect.TypeOf(structs.ServiceNode{})
+	suType       = reflect.TypeOf(structs.ServiceUsage{})
+	svcNameType  = reflect.TypeOf(structs.ServiceName{})
 )
 
 // unbackedWildcard: a gateway-services mapping derived from a wildcard ("*") listener / linked
@@ -183,6 +199,22 @@ func (c *canonCtx) walk(v reflect.Value, sb *strings.Builder, depth int, skip []
 			return
 		}
 		var refreshed *svcInfo
+		nodeSpelling := ""
+		if c.masks&mNodeSpelling != 0 && t == snType {
+			k := strings.ToLower(v.FieldByName("Node").String() + "\x00" + v.FieldByName("PeerName").String())
+			if c.respelled[k] {
+				nodeSpelling = c.nodes[k]
+			}
+		}
+		if c.masks&mStaleHash != 0 && v.CanAddr() && v.Addr().CanInterface() {
+			if ce, ok := v.Addr().Interface().(structs.ConfigEntry); ok && c.staleHash[ce.GetKind()+"\x00"+ce.GetName()] {
+				skip = append(append([]string{}, skip...), "Hash")
+			}
+		}
+		if c.masks&mNameSpelling != 0 && t == suType {
+			skip = append(append([]string{}, skip...), "Services")
+		}
+		lowerName := c.masks&mNameSpelling != 0 && t == svcNameType && c.variants[strings.ToLower(v.FieldByName("Name").String())]
 		if c.masks&mGatewayStamp != 0 && t == gsType {
 			// ServiceKind records which registrations existed when the row was last written
 			skip = append(append([]string{}, skip...), "RaftIndex", "ServiceKind")
@@ -221,6 +253,14 @@ func (c *canonCtx) walk(v reflect.Value, sb *strings.Builder, depth int, skip []
 			}
 			first = false
 			sb.WriteString(f.Name + ":")
+			if nodeSpelling != "" && f.Name == "Node" {
+				sb.WriteString(strconv.Quote(nodeSpelling))
+				continue
+			}
+			if lowerName && f.Name == "Name" {
+				sb.WriteString(strconv.Quote(strings.ToLower(v.Field(i).String())))
+				continue
+			}
 			if refreshed != nil && f.Name == "ServiceName" {
 				sb.WriteString(strconv.Quote(refreshed.name))
 				continue
